@@ -120,8 +120,8 @@ class ExprGen:
             return X("bool", r.choice(["==", "!="]), [self.enum_expr(d - 1, en), self.enum_expr(d - 1, en)])
         if k < 0.9:
             return X("bool", r.choice(["==", "!="]), [self.bool_expr(d - 1), self.bool_expr(d - 1)])
-        if k < 0.96 and self.env.present:
-            return X("bool", "$present", [L("any", r.choice(self.env.present))])
+        if k < 0.96 and (self.env.present or self.env.params):
+            return X("bool", "$present", [L("any", r.choice(self.env.present + [p for p, _ in self.env.params]))])
         return X("bool", "?:", [self.bool_expr(d - 1), self.bool_expr(d - 1), self.bool_expr(d - 1)])
 
     def enum_expr(self, d, en):
@@ -514,8 +514,6 @@ def bad_expressions(rng, g, kind, env):
         if env.of("opaque"):
             o = rng.choice(env.of("opaque"))
             out.append(("equality-opaque-operand", X("bool", eqo, [L("opaque", o), L("opaque", o)])))
-        if env.params:
-            out.append(("present-of-parameter", X("bool", "$present", [L("any", env.params[0][0])])))
     elif kind.startswith("enum:"):
         en = kind[5:]
         out += [("choice-branches-differ", X(kind, "?:", [B(), E(en), E(_other_enum(en))])),
@@ -664,13 +662,25 @@ def c13_welltyped_extras(base, rng):
             n = c.lines[li].f["dims"][0]
             c.lines[li].f["dims"] = [X("int", "?:", [X("bool", "==", [L("int", "x"), L("int", "1")]), n, n])]
             out.append(Case(c.lines, "ok:array-length-with-boolean-subexpression", li + 1, doc_typed=True, cls="C13"))
+    # an enum value given as (an expression of) a value of another enum: valid
+    for li, l in enumerate(lines):
+        if l.kind == "enum_value" and l.owner == "Bb" and l.f.get("edge") == "lo":
+            c = base.case()
+            c.lines[li].f["value"] = L("enum:Aa", "Aa.AX")
+            out.append(Case(c.lines, "ok:enum-value-from-other-enum", li + 1, doc_typed=True, cls="C13"))
+    # $present of a parameter: always true
+    for li, l in enumerate(lines):
+        if l.kind == "if" and l.owner == "Main" and l.f.get("mixed"):
+            c = base.case()
+            c.lines[li].f["cond"] = X("bool", "&&", [X("bool", "$present", [L("any", "p")]), c.lines[li].f["cond"]])
+            out.append(Case(c.lines, "ok:present-of-parameter", li + 1, doc_typed=True, cls="C13"))
     # a top-level type of another module that happens to be called Flag
     c = base.case()
     c.lines.insert(0, Line("raw", 0, text='import "other.emb" as oth'))
     c.lines += [Line("raw", 0, text="struct UsesImported:"),
                 Line("raw", 1, text='[$default byte_order: "LittleEndian"]'),
-                Line("raw", 1, text="0 [+1]  oth.Flag  of"),
-                Line("raw", 1, text="let ob = of == oth.Flag.%s" % rng.choice(["ON", "OFF"]))]
+                Line("raw", 1, text="0 [+1]  oth.Flag  oflag"),
+                Line("raw", 1, text="let ob = oflag == oth.Flag.%s" % rng.choice(["ON", "OFF"]))]
     case = Case(c.lines, "ok:imported-type-named-flag", len(c.lines), doc_typed=True, cls="C13")
     case.extra = {"other.emb": "enum Flag:\n  ON = 1\n  OFF = 0\n"}
     out.append(case)
@@ -689,8 +699,6 @@ Line.slots_map = _slots_map
 
 C13_KNOWN = {
     "ordering-enum-operands": "typecheck-enum-ordering-accepted",          # F13
-    "parameter-other-enum": "typecheck-enum-parameter-any-enum",           # F14
-    "present-of-parameter": "bounds-crash-present-parameter",              # F12
 }
 
 
@@ -871,9 +879,7 @@ def c14_cases(base, rng):
     return out
 
 
-C14_KNOWN = {
-    "width-0:uint-in-struct": "bounds-assert:zero-width-leaf",
-}
+C14_KNOWN = {}
 
 
 # ----------------------------------------------------------------------------
